@@ -185,6 +185,8 @@ def check_case(acc: Acc, case: dict) -> None:
 
 
 SPECIAL = [
+	# the file ends inside a block, on a line of nothing but indentation, without a final line break
+	'class A:\n\tdef g(self) -> None:\n\t\tpass\n\t', 'def f() -> None:\n\tpass\n\t\t', 'if a:\n\tx = 1\n    ', 'x = 1', 'x = 1\n\n\n',
 	# physical lines of more than a thousand (and exactly a thousand) columns, a module of more than a thousand lines
 	'table = [' + ', '.join(str(i) for i in range(450)) + ']\nafter = table\n',
 	"s = '" + 'x' * (1000 - len("s = '") - 1) + "'\nt = s\n",
